@@ -8,7 +8,7 @@ LEVEL = "exploration"
 def run(c):
     builds = [("std-rel", 0)] + ([("std-dbg", 0), ("nounroll-rel", 0)] if c.thorough else [])
     digest_common.run_digests(c, "skein", "TraceSkein", "VecSkein", builds)
-    c.cov["rule"] = ("one-shot digests of Skein256/512/1024<N>: message lengths 0..2*block+17 (all in thorough; all boundary lengths plus a rotating residue subset in quick), longer random "
+    c.cov["rule"] = ("one-shot digests of Skein256/512/1024<N>: message lengths 0..2*block+17 (0..4*block+17, three passes with rotating content kinds in thorough; all boundary lengths plus a rotating residue subset in quick), longer random "
                      "messages, and N in {1,2,3,7,8,9,16,20,28,31,32,33,48,63,64,65,96,127,128,129,160,200,256,257,300} (every N against empty / 1-byte / one-block / block+1 messages); "
                      "TLC recomputes each with Skein.tla (config UBI, message UBI with first/final/position tweak, counter-mode output) over Threefish.tla. distinct = distinct (alg,N,msg).")
     c.assumptions += ["messages and output lengths sampled", "Skein.tla pinned by Skein 1.3 reference digests of 0xFF and the Threefish NIST vectors on every run"]
